@@ -179,7 +179,8 @@ func (o *c01obj) check(seq []int, kg *epochkg.EpochKG) string {
 
 type c01Replay struct {
 	Layer string   `json:"layer"`
-	N, T  int      `json:"n,t"`
+	N     int      `json:"n"`
+	T     int      `json:"t"`
 	Seq   []string `json:"sequence"`
 	Idx   []int    `json:"indices"`
 }
